@@ -105,7 +105,14 @@ def placement_program(draw, tier):
 def strategy_(draw, tier):
     prog, info = draw(placement_program(tier))
     return {"prog": prog, "info": info, "opts": {}, "poles": draw(st.sampled_from(gen.POLE_OPTIONS)),
-            "optimize": draw(st.integers(0, 3)) != 0, "sched": draw(gen.schedule())}
+            "optimize": draw(st.integers(0, 3)) != 0, "sched": _sched(draw, tier)}
+
+
+def _sched(draw, tier):
+    s = draw(gen.schedule())
+    if tier == "quick":
+        s.pop("untouched", None)
+    return s
 
 
 def strategy(tier):
